@@ -802,4 +802,290 @@ theorem sqDist_shift_symm (b a c : V3) (n : I3) :
   simp only [sqDist, shiftV]; push_cast; ring
 
 
+/-! ## general box matrix -/
+
+theorem mkG_ok (coords : List V3) (cs : Rat) (B : M3) (sel : Option (List Bool)) (c : CL)
+    (h : mkG coords cs B sel = some (.ok c)) :
+    c.WF ∧ c.coord = allCoordsG coords B ∧ c.n = coords.length ∧ c.box = none ∧ c.cs = cs ∧
+    selError coords sel = none ∧ B.det ≠ 0 ∧ c.sel = selMask sel coords.length := by
+  unfold mkG at h
+  split at h
+  · simp at h
+  · rename_i hsel
+    split at h
+    · simp at h
+    · rename_i hdet
+      split at h
+      · simp at h
+      · rename_i hcs
+        split at h
+        · simp at h
+        · rename_i p ps hall
+          simp only [Option.some.injEq, Except.ok.injEq] at h
+          subst h
+          refine ⟨⟨by simp only [buildG]; linarith, ?_, ?_⟩, rfl, rfl, rfl, rfl, hsel, hdet, rfl⟩
+          · intro q hq
+            have hq' : q ∈ p :: ps := by simpa [buildG, hall] using hq
+            exact ⟨bounds_lo (·.x) p ps q hq', bounds_lo (·.y) p ps q hq', bounds_lo (·.z) p ps q hq'⟩
+          · intro q hq
+            have hq' : q ∈ p :: ps := by simpa [buildG, hall] using hq
+            exact ⟨bounds_hi (·.x) p ps q hq', bounds_hi (·.y) p ps q hq', bounds_hi (·.z) p ps q hq'⟩
+
+theorem replicateG_getElem? (B : M3) (coords : List V3) (t' : Nat) (p' : V3) :
+    (replicateG B (coords.map (wrapG B)))[t']? = some p' ↔
+      ∃ si t s p, t' = si * coords.length + t ∧ shifts[si]? = some s ∧ coords[t]? = some p ∧
+        p' = shiftG B s (wrapG B p) := by
+  unfold replicateG
+  rw [getElem?_flatMap_map (shiftG B) (coords.map (wrapG B)) shifts t' p']
+  simp only [List.length_map, List.getElem?_map, Option.map_eq_some_iff]
+  constructor
+  · rintro ⟨si, t, s, pw, ht, hs, ⟨p, hp, rfl⟩, hx⟩
+    exact ⟨si, t, s, p, ht, hs, hp, hx⟩
+  · rintro ⟨si, t, s, p, ht, hs, hp, hx⟩
+    exact ⟨si, t, s, _, ht, hs, ⟨p, hp, rfl⟩, hx⟩
+
+/-- What the code computes for ANY invertible box: exactness w.r.t. the 27 images of the moved-inside atom. -/
+theorem periodicG_exact27 (coords : List V3) (cs : Rat) (B : M3) (sel : Option (List Bool)) (c : CL)
+    (h : mkG coords cs B sel = some (.ok c)) (q : V3) (r : Rat) (hr : 0 ≤ r) (t : Nat) :
+    t ∈ c.atomsOneG B q r ↔
+      ∃ p, coords[t]? = some p ∧ (selMask sel coords.length)[t]? = some true ∧
+        ∃ s ∈ shifts, sqDist (wrapG B q) (shiftG B s (wrapG B p)) ≤ r * r := by
+  obtain ⟨hwf, hcoord, hn, hbox, -, -, -, hsel⟩ := mkG_ok coords cs B sel c h
+  unfold CL.atomsOneG
+  rw [atomsOne_eq]
+  simp only [CL.post, CL.prepQ, hbox, List.mem_map]
+  constructor
+  · rintro ⟨t', ht', rfl⟩
+    obtain ⟨p', hp', hs, hd⟩ := (mem_rawAtoms c hwf (wrapG B q) r hr t').mp ht'
+    rw [hcoord] at hp'
+    obtain ⟨si, t0, s, p, ht'', hsi, hp, rfl⟩ := (replicateG_getElem? B coords t' p').mp hp'
+    have ht0 : t0 < coords.length := (List.getElem?_eq_some_iff.mp hp).1
+    have hm : t' % c.n = t0 := by
+      rw [hn, ht'', Nat.mul_add_mod_self_right, Nat.mod_eq_of_lt ht0]
+    rw [hm]
+    refine ⟨p, hp, ?_, s, List.mem_of_getElem? hsi, hd⟩
+    have : c.selected t' = (c.sel[t0]? == some true) := by simp [CL.selected, hm]
+    rw [this, hsel] at hs
+    simpa using hs
+  · rintro ⟨p, hp, hs, s, hsm, hd⟩
+    obtain ⟨si, hsi⟩ := List.mem_iff_getElem?.mp hsm
+    have ht0 : t < coords.length := (List.getElem?_eq_some_iff.mp hp).1
+    have hm : (si * coords.length + t) % c.n = t := by
+      rw [hn, Nat.mul_add_mod_self_right, Nat.mod_eq_of_lt ht0]
+    refine ⟨si * coords.length + t, ?_, hm⟩
+    apply (mem_rawAtoms c hwf (wrapG B q) r hr _).mpr
+    refine ⟨shiftG B s (wrapG B p), ?_, ?_, hd⟩
+    · rw [hcoord]; exact (replicateG_getElem? B coords _ _).mpr ⟨si, t, s, p, rfl, hsi, hp, rfl⟩
+    · have : c.selected (si * coords.length + t) = (c.sel[t]? == some true) := by simp [CL.selected, hm]
+      rw [this, hsel, hs]; rfl
+
+
+/-! ## fractional coordinates: `p·B⁻¹·B = p`, `f·B·B⁻¹ = f` -/
+
+theorem vecMul_inv_left (B : M3) (hdet : B.det ≠ 0) (p : V3) : vecMul (vecMul p B.inv) B = p := by
+  obtain ⟨x, y, z⟩ := p
+  obtain ⟨⟨a1, a2, a3⟩, ⟨b1, b2, b3⟩, ⟨c1, c2, c3⟩⟩ := B
+  simp only [vecMul, M3.inv, V3.mk.injEq]
+  have hD' : M3.det ⟨⟨a1, a2, a3⟩, ⟨b1, b2, b3⟩, ⟨c1, c2, c3⟩⟩ =
+      a1 * (b2 * c3 - b3 * c2) - a2 * (b1 * c3 - b3 * c1) + a3 * (b1 * c2 - b2 * c1) := rfl
+  generalize M3.det ⟨⟨a1, a2, a3⟩, ⟨b1, b2, b3⟩, ⟨c1, c2, c3⟩⟩ = D at hdet hD' ⊢
+  refine ⟨?_, ?_, ?_⟩ <;> (field_simp; rw [hD']; ring)
+
+theorem vecMul_inv_right (B : M3) (hdet : B.det ≠ 0) (f : V3) : vecMul (vecMul f B) B.inv = f := by
+  obtain ⟨x, y, z⟩ := f
+  obtain ⟨⟨a1, a2, a3⟩, ⟨b1, b2, b3⟩, ⟨c1, c2, c3⟩⟩ := B
+  simp only [vecMul, M3.inv, V3.mk.injEq]
+  have hD' : M3.det ⟨⟨a1, a2, a3⟩, ⟨b1, b2, b3⟩, ⟨c1, c2, c3⟩⟩ =
+      a1 * (b2 * c3 - b3 * c2) - a2 * (b1 * c3 - b3 * c1) + a3 * (b1 * c2 - b2 * c1) := rfl
+  generalize M3.det ⟨⟨a1, a2, a3⟩, ⟨b1, b2, b3⟩, ⟨c1, c2, c3⟩⟩ = D at hdet hD' ⊢
+  refine ⟨?_, ?_, ?_⟩ <;> (field_simp; rw [hD']; ring)
+
+def nsq (v : V3) : Rat := v.x * v.x + v.y * v.y + v.z * v.z
+
+/-- `d + m` for a fractional vector `d` and an integer vector `m` -/
+def addI (d : V3) (m : I3) : V3 := ⟨d.x + m.i, d.y + m.j, d.z + m.k⟩
+
+def subV (a b : V3) : V3 := ⟨a.x - b.x, a.y - b.y, a.z - b.z⟩
+
+def floorI (f : V3) : I3 := ⟨f.x.floor, f.y.floor, f.z.floor⟩
+
+/-- distance between images of the moved-inside points, in fractional coordinates -/
+theorem sqDist_wrapG (B : M3) (p q : V3) (s : I3) :
+    sqDist (wrapG B q) (shiftG B s (wrapG B p)) =
+      nsq (vecMul (addI (subV (fracV (vecMul p B.inv)) (fracV (vecMul q B.inv))) s) B) := by
+  simp only [sqDist, wrapG, shiftG, nsq, vecMul, addI, subV]
+  ring
+
+/-- distance between a lattice translate of the original atom and the original query, in fractional coordinates -/
+theorem sqDist_latticeG (B : M3) (hdet : B.det ≠ 0) (p q : V3) (n : I3) :
+    sqDist q (shiftG B n p) =
+      nsq (vecMul (addI (subV (fracV (vecMul p B.inv)) (fracV (vecMul q B.inv)))
+        ⟨n.i + (floorI (vecMul p B.inv)).i - (floorI (vecMul q B.inv)).i,
+         n.j + (floorI (vecMul p B.inv)).j - (floorI (vecMul q B.inv)).j,
+         n.k + (floorI (vecMul p B.inv)).k - (floorI (vecMul q B.inv)).k⟩) B) := by
+  have hp := vecMul_inv_left B hdet p
+  have hq := vecMul_inv_left B hdet q
+  generalize vecMul p B.inv = fp at hp
+  generalize vecMul q B.inv = fq at hq
+  subst hp; subst hq
+  simp only [sqDist, shiftG, nsq, vecMul, addI, subV, fracV, floorI]
+  push_cast
+  ring
+
+theorem fracV_range (f : V3) : (0 ≤ (fracV f).x ∧ (fracV f).x < 1) ∧ (0 ≤ (fracV f).y ∧ (fracV f).y < 1) ∧
+    (0 ≤ (fracV f).z ∧ (fracV f).z < 1) := by
+  have h1 := Rat.floor_le f.x; have h2 := Rat.lt_floor_add_one f.x
+  have h3 := Rat.floor_le f.y; have h4 := Rat.lt_floor_add_one f.y
+  have h5 := Rat.floor_le f.z; have h6 := Rat.lt_floor_add_one f.z
+  push_cast at h2 h4 h6
+  simp only [fracV]
+  refine ⟨⟨by linarith, by linarith⟩, ⟨by linarith, by linarith⟩, ⟨by linarith, by linarith⟩⟩
+
+/-- components strictly between -1 and 1 -/
+def small (d : V3) : Prop := (-1 < d.x ∧ d.x < 1) ∧ (-1 < d.y ∧ d.y < 1) ∧ (-1 < d.z ∧ d.z < 1)
+
+theorem small_sub_frac (f g : V3) : small (subV (fracV f) (fracV g)) := by
+  obtain ⟨⟨a1, a2⟩, ⟨a3, a4⟩, ⟨a5, a6⟩⟩ := fracV_range f
+  obtain ⟨⟨b1, b2⟩, ⟨b3, b4⟩, ⟨b5, b6⟩⟩ := fracV_range g
+  simp only [small, subV]
+  refine ⟨⟨by linarith, by linarith⟩, ⟨by linarith, by linarith⟩, ⟨by linarith, by linarith⟩⟩
+
+/-- "the 27 images are enough at squared radius `r2`" as a statement about the quadratic form of the box -/
+def Sufficient (B : M3) (r2 : Rat) : Prop :=
+  ∀ (d : V3) (m : I3), small d → nsq (vecMul (addI d m) B) ≤ r2 →
+    ∃ s ∈ shifts, nsq (vecMul (addI d s) B) ≤ r2
+
+/-- 27-image set ⊆ all-lattice set, always; ⊇ whenever the 27 images are sufficient. -/
+theorem images27_iff_lattice (B : M3) (hdet : B.det ≠ 0) (p q : V3) (r2 : Rat) (hs : Sufficient B r2) :
+    (∃ s ∈ shifts, sqDist (wrapG B q) (shiftG B s (wrapG B p)) ≤ r2) ↔
+      (∃ n : I3, sqDist q (shiftG B n p) ≤ r2) := by
+  constructor
+  · rintro ⟨s, -, h⟩
+    refine ⟨⟨s.i - (floorI (vecMul p B.inv)).i + (floorI (vecMul q B.inv)).i,
+             s.j - (floorI (vecMul p B.inv)).j + (floorI (vecMul q B.inv)).j,
+             s.k - (floorI (vecMul p B.inv)).k + (floorI (vecMul q B.inv)).k⟩, ?_⟩
+    rw [sqDist_latticeG B hdet]
+    rw [sqDist_wrapG] at h
+    dsimp only
+    have e : (⟨s.i - (floorI (vecMul p B.inv)).i + (floorI (vecMul q B.inv)).i + (floorI (vecMul p B.inv)).i -
+                (floorI (vecMul q B.inv)).i,
+              s.j - (floorI (vecMul p B.inv)).j + (floorI (vecMul q B.inv)).j + (floorI (vecMul p B.inv)).j -
+                (floorI (vecMul q B.inv)).j,
+              s.k - (floorI (vecMul p B.inv)).k + (floorI (vecMul q B.inv)).k + (floorI (vecMul p B.inv)).k -
+                (floorI (vecMul q B.inv)).k⟩ : I3) = s := by
+      obtain ⟨i, j, k⟩ := s
+      simp only [I3.mk.injEq]
+      refine ⟨by omega, by omega, by omega⟩
+    rw [e]; exact h
+  · rintro ⟨n, h⟩
+    rw [sqDist_latticeG B hdet] at h
+    obtain ⟨s, hsm, hle⟩ := hs _ _ (small_sub_frac _ _) h
+    exact ⟨s, hsm, by rw [sqDist_wrapG]; exact hle⟩
+
+
+/-! ## when are the 27 images sufficient? -/
+
+def dot (a b : V3) : Rat := a.x * b.x + a.y * b.y + a.z * b.z
+
+/-- pairwise orthogonal box vectors, in any orientation -/
+def OrthoRows (B : M3) : Prop := dot B.a B.b = 0 ∧ dot B.a B.c = 0 ∧ dot B.b B.c = 0
+
+theorem nsq_vecMul (g : V3) (B : M3) :
+    nsq (vecMul g B) = g.x * g.x * dot B.a B.a + g.y * g.y * dot B.b B.b + g.z * g.z * dot B.c B.c +
+      2 * (g.x * g.y) * dot B.a B.b + 2 * (g.x * g.z) * dot B.a B.c + 2 * (g.y * g.z) * dot B.b B.c := by
+  simp only [nsq, vecMul, dot]; ring
+
+theorem dot_self_nonneg (a : V3) : 0 ≤ dot a a := by
+  unfold dot; nlinarith [mul_self_nonneg a.x, mul_self_nonneg a.y, mul_self_nonneg a.z]
+
+/-- Orthogonal box vectors (any orientation): the 27 images are sufficient for every radius. -/
+theorem sufficient_of_ortho (B : M3) (ho : OrthoRows B) (r2 : Rat) : Sufficient B r2 := by
+  intro d m hd h
+  obtain ⟨⟨x1, x2⟩, ⟨y1, y2⟩, ⟨z1, z2⟩⟩ := hd
+  obtain ⟨o1, o2, o3⟩ := ho
+  obtain ⟨si, hsi, hi⟩ := min_image_1d 1 d.x one_pos (by linarith) x2 m.i
+  obtain ⟨sj, hsj, hj⟩ := min_image_1d 1 d.y one_pos (by linarith) y2 m.j
+  obtain ⟨sk, hsk, hk⟩ := min_image_1d 1 d.z one_pos (by linarith) z2 m.k
+  refine ⟨⟨si, sj, sk⟩, mem_shifts si sj sk hsi hsj hsk, ?_⟩
+  rw [nsq_vecMul] at h ⊢
+  simp only [addI, o1, o2, o3, mul_zero, add_zero] at h ⊢
+  simp only [mul_one] at hi hj hk
+  have ha := dot_self_nonneg B.a
+  have hb := dot_self_nonneg B.b
+  have hc := dot_self_nonneg B.c
+  have t1 := mul_le_mul_of_nonneg_right hi ha
+  have t2 := mul_le_mul_of_nonneg_right hj hb
+  have t3 := mul_le_mul_of_nonneg_right hk hc
+  linarith
+
+theorem cauchy_schwarz3 (v1 v2 v3 u1 u2 u3 : Rat) :
+    (v1 * u1 + v2 * u2 + v3 * u3) * (v1 * u1 + v2 * u2 + v3 * u3) ≤
+      (v1 * v1 + v2 * v2 + v3 * v3) * (u1 * u1 + u2 * u2 + u3 * u3) := by
+  nlinarith [mul_self_nonneg (v1 * u2 - v2 * u1), mul_self_nonneg (v1 * u3 - v3 * u1),
+    mul_self_nonneg (v2 * u3 - v3 * u2)]
+
+/-- squared norms of the columns of `B⁻¹` (= 1 / height², the heights of the box) -/
+def colSq (B : M3) : V3 :=
+  ⟨B.inv.a.x * B.inv.a.x + B.inv.b.x * B.inv.b.x + B.inv.c.x * B.inv.c.x,
+   B.inv.a.y * B.inv.a.y + B.inv.b.y * B.inv.b.y + B.inv.c.y * B.inv.c.y,
+   B.inv.a.z * B.inv.a.z + B.inv.b.z * B.inv.b.z + B.inv.c.z * B.inv.c.z⟩
+
+/-- `r ≤ half of every box height`, squared: `4 r² ≤ hᵢ²`, i.e. `4 r² |colᵢ(B⁻¹)|² ≤ 1`. -/
+def HalfHeight (B : M3) (r2 : Rat) : Prop :=
+  4 * r2 * (colSq B).x ≤ 1 ∧ 4 * r2 * (colSq B).y ≤ 1 ∧ 4 * r2 * (colSq B).z ≤ 1
+
+theorem int_of_half (d : Rat) (m : Int) (h1 : -1 < d) (h2 : d < 1) (h : 4 * ((d + m) * (d + m)) ≤ 1) :
+    m = -1 ∨ m = 0 ∨ m = 1 := by
+  have hb : d + m ≤ 1 / 2 ∧ -(d + m) ≤ 1 / 2 := by
+    constructor
+    · by_contra hc; have hc := not_le.mp hc; nlinarith
+    · by_contra hc; have hc := not_le.mp hc; nlinarith
+  have hu : (m : Rat) < 2 := by linarith [hb.1]
+  have hl : (-2 : Rat) < m := by linarith [hb.2]
+  have hu' : m < 2 := by exact_mod_cast hu
+  have hl' : -2 < m := by exact_mod_cast hl
+  omega
+
+theorem bound_half (g N C r2 : Rat) (cs : g * g ≤ N * C) (nv : N ≤ r2) (c0 : 0 ≤ C) (h1 : 4 * r2 * C ≤ 1) :
+    4 * (g * g) ≤ 1 := by
+  have t : N * C ≤ r2 * C := mul_le_mul_of_nonneg_right nv c0
+  have e : 4 * r2 * C = 4 * (r2 * C) := by ring
+  linarith
+
+theorem sumsq_nonneg (a b c : Rat) : 0 ≤ a * a + b * b + c * c := by
+  nlinarith [mul_self_nonneg a, mul_self_nonneg b, mul_self_nonneg c]
+
+/-- General triclinic box: the 27 images are sufficient up to half the smallest box height. -/
+theorem sufficient_of_halfHeight (B : M3) (hdet : B.det ≠ 0) (r2 : Rat) (hh : HalfHeight B r2) :
+    Sufficient B r2 := by
+  intro d m hd h
+  obtain ⟨⟨x1, x2⟩, ⟨y1, y2⟩, ⟨z1, z2⟩⟩ := hd
+  obtain ⟨h1, h2, h3⟩ := hh
+  -- the fractional components of v = (d+m)·B are recovered by B⁻¹ and bounded by Cauchy–Schwarz
+  have hinv := vecMul_inv_right B hdet (addI d m)
+  set v := vecMul (addI d m) B with hv
+  have ex : d.x + m.i = v.x * B.inv.a.x + v.y * B.inv.b.x + v.z * B.inv.c.x := by
+    have := congrArg V3.x hinv; simpa [vecMul, addI] using this.symm
+  have ey : d.y + m.j = v.x * B.inv.a.y + v.y * B.inv.b.y + v.z * B.inv.c.y := by
+    have := congrArg V3.y hinv; simpa [vecMul, addI] using this.symm
+  have ez : d.z + m.k = v.x * B.inv.a.z + v.y * B.inv.b.z + v.z * B.inv.c.z := by
+    have := congrArg V3.z hinv; simpa [vecMul, addI] using this.symm
+  have cx := cauchy_schwarz3 v.x v.y v.z B.inv.a.x B.inv.b.x B.inv.c.x
+  have cy := cauchy_schwarz3 v.x v.y v.z B.inv.a.y B.inv.b.y B.inv.c.y
+  have cz := cauchy_schwarz3 v.x v.y v.z B.inv.a.z B.inv.b.z B.inv.c.z
+  rw [← ex] at cx; rw [← ey] at cy; rw [← ez] at cz
+  simp only [colSq] at h1 h2 h3
+  have nv : v.x * v.x + v.y * v.y + v.z * v.z ≤ r2 := h
+  have kx : 4 * ((d.x + m.i) * (d.x + m.i)) ≤ 1 :=
+    bound_half _ _ _ r2 cx nv (sumsq_nonneg _ _ _) h1
+  have ky : 4 * ((d.y + m.j) * (d.y + m.j)) ≤ 1 :=
+    bound_half _ _ _ r2 cy nv (sumsq_nonneg _ _ _) h2
+  have kz : 4 * ((d.z + m.k) * (d.z + m.k)) ≤ 1 :=
+    bound_half _ _ _ r2 cz nv (sumsq_nonneg _ _ _) h3
+  have mi := int_of_half d.x m.i x1 x2 kx
+  have mj := int_of_half d.y m.j y1 y2 ky
+  have mk := int_of_half d.z m.k z1 z2 kz
+  exact ⟨m, by obtain ⟨i, j, k⟩ := m; exact mem_shifts i j k mi mj mk, h⟩
+
+
 end BiotiteModel.C14
